@@ -485,7 +485,41 @@ class Text20Spec(ExportSpec):
         return 1 if out else 0
 
 
+class SliceSpec(SerdeSpec):
+    """C13 on the build-std IR (std HashSet / hashbrown, emap iterator, empty/add/bind)"""
+    key_by_clause = False
+    assumptions = ['the edge structure of the source graph (targets per vertex, no self loops) is fixed per task, so the HashSets of slice_some() hash concrete ids; labels, data and the predicate are symbolic',
+                   'the predicate is one solver variable per source edge (labels of one vertex are pairwise distinct, so this is every function of (from, to, label)); the real code branches on the answers',
+                   'everything reachable from the start vertex is present (precondition of the property)',
+                   'fixed hash keys (two key sets: they change the order in which the work list is drained)',
+                   'built with the nightly toolchain and -Zbuild-std']
+    bounds = 'quick: N=2, capacity 3: every edge structure (343) for slice_some from vertex 0 is NOT run; a curated set of 30 structures (chains, cycles, shared targets, diamonds, rejected-then-accepted targets) x start vertices, capacity 4 for the diamond shapes; thorough: all 343 structures of capacity 3 x 3 start vertices, and 60 of capacity 4'
+
+    def __init__(s):
+        GraphSpec.__init__(s, [], "slice(v) and slice_some(v, p) executed on the IR with a symbolic predicate: the result's present vertices are exactly the closure of v under accepted edges (under their ids), it holds every accepted edge between kept vertices and no edge the source lacks, it satisfies the representation invariant, the source is byte-identical, the call returns on cyclic structures")
+        s.which = 'C13'
+
+    @property
+    def judge(s):
+        from . import pslice
+        return pslice.judge_slice
+
+    def tasks(s, tier):
+        from . import pslice as PL
+        return PL.tasks(tier)
+
+    def replay(s, path):
+        from . import pslice as PL
+        v = json.load(open(path))
+        b = H.build_drv('dev-like')
+        lines, crashed, stderr = H.native_replay(b['replay'], v['job'])
+        out, info = PL.judge_slice(v['job'], lines, crashed, stderr)
+        print(json.dumps({'reproduces': bool(out), 'what': out}, indent=1))
+        return 1 if out else 0
+
+
 PROPS = {
+    'C13': SliceSpec(),
     'C20': Text20Spec(),
     'C18': ExportSpec(),
     'C08': SerdeSpec('C08'),
